@@ -824,6 +824,27 @@ pub fn run_desc(d: &Desc) -> Run {
           auto_ok = false;
           auto_detail.push_str(&format!("field=poling_period got={:?} explicit={:?} ", got, want));
         }
+        // the whole poling (period, sign AND the configured apodization) = the explicit optimum
+        // poling for that apodization on the same signal / pump / crystal
+        if let PeriodicPolingConfig::Config { apodization, .. } = &cfg.periodic_poling {
+          let ap: Apodization = apodization.clone().into();
+          let explicit = guard(|| PeriodicPoling::try_new_optimum(&signal, &pump, &c0, ap.clone()).ok()).flatten();
+          if explicit.as_ref() != Some(&s.pp) {
+            auto_ok = false;
+            auto_detail.push_str(&format!(
+              "field=periodic_poling got_apodization={} explicit_apodization={} ",
+              apod_tokens(s.pp.apodization()).replace(' ', ","),
+              explicit.as_ref().map(|p| apod_tokens(p.apodization()).replace(' ', ",")).unwrap_or("none".into())
+            ));
+          }
+          // and the setup's own optimum-poling helpers agree with it
+          let own = guard(|| s.optimum_periodic_poling().ok()).flatten();
+          let with = guard(|| s.clone().with_optimum_periodic_poling().ok().map(|x| x.pp)).flatten();
+          if own.as_ref() != explicit.as_ref() || with.as_ref() != explicit.as_ref() {
+            auto_ok = false;
+            auto_detail.push_str("field=periodic_poling optimum_periodic_poling()/with_optimum_periodic_poling() differ from the explicit optimum ");
+          }
+        }
       }
     }
     let pp = guard(|| cfg.periodic_poling.clone().try_as_periodic_poling(&signal, &pump, &c0).ok()).flatten();
@@ -1238,6 +1259,33 @@ fn c16_case(ctx: &mut Ctx, d: &Desc) {
       ctx.s("C16.fields", false, fields_sig(&why), &format!("{} {}", why, det));
     }
   }
+  // the configured apodization survives: kind, and parameter (the Gaussian width rounded to 4 decimals)
+  if let (Some(cfg), true) = (&run.cfg, true) {
+    if let PeriodicPolingConfig::Config { apodization: want, .. } = &cfg.periodic_poling {
+      let got = match &c1.periodic_poling {
+        PeriodicPolingConfig::Config { apodization, .. } => Some(apodization.clone()),
+        PeriodicPolingConfig::Off => None,
+      };
+      let ok = match (&got, want) {
+        (Some(ApodizationConfig::Gaussian { fwhm_um: g }), ApodizationConfig::Gaussian { fwhm_um: w }) => {
+          *g == (w * 1e4).round() / 1e4 || (*g - *w).abs() <= 0.5e-4 * (1.0 + 1e-6) && ((g * 1e4).round() / 1e4 == *g)
+        }
+        (Some(g), w) => g == w,
+        (None, _) => false,
+      };
+      ctx.s(
+        "C16.fields",
+        ok,
+        "as_config/apodization-kept",
+        &format!(
+          "configured={} got={} {}",
+          apod_cfg_tokens(want).replace(' ', ","),
+          got.as_ref().map(|g| apod_cfg_tokens(g).replace(' ', ",")).unwrap_or("off".into()),
+          det
+        ),
+      );
+    }
+  }
   // second conversion reproduces the configuration
   match guard(|| c1.clone().try_as_spdc().map(|s2| s2.as_config())) {
     Some(Ok(c2)) => match config_close(&c1, &c2, 1e-9) {
@@ -1575,6 +1623,40 @@ pub fn run(ctx: &mut Ctx) {
         Err(why) => {
           ctx.s("C16.fields", false, fields_sig(&why), &format!("{} setup=SPDC::default()", why));
         }
+      }
+    }
+    // every apodization kind together with an "auto" (and an explicit) poling period
+    let kinds: Vec<Option<ApodD>> = vec![
+      None,
+      Some(ApodD::Off),
+      Some(ApodD::Gaussian(1234.5678)),
+      Some(ApodD::Gaussian(1004.07)),
+      Some(ApodD::Named("Bartlett", 1.25)),
+      Some(ApodD::Named("Blackman", 0.875)),
+      Some(ApodD::Named("Connes", 1.5)),
+      Some(ApodD::Named("Cosine", 2.0)),
+      Some(ApodD::Named("Hamming", 0.7)),
+      Some(ApodD::Named("Welch", 1.125)),
+      Some(ApodD::Interpolate(vec![0.1, 0.5, 1.0, 0.5, 0.1])),
+      Some(ApodD::Interpolate(vec![])),
+    ];
+    for a in kinds.iter() {
+      for auto in [true, false] {
+        let mut d = gen_valid(&mut ctx.rng);
+        d.kind = 1;
+        d.pm = 3;
+        d.pm_spelling = "e->eo".into();
+        d.c_phi = Some(0.);
+        d.c_theta = AutoV::Val(90.);
+        d.length = 14000.;
+        d.cp = None;
+        d.p_wl = 775.;
+        d.signal.wl = 1550.;
+        d.signal.theta = None;
+        d.signal.theta_e = Some(0.);
+        d.idler = IdlerD::Auto;
+        d.poling = PolingD::Cfg { period: if auto { AutoV::Auto } else { AutoV::Val(46.5) }, apod: a.clone() };
+        c16_case(ctx, &d);
       }
     }
     // boundary: azimuths that round up to 360.0000
